@@ -87,7 +87,7 @@ def extremeMagnitude : AnyParams → Bool
   | .farm p => big p.poolCreationFee.amount
   | .htlc p => p.any fun a => big a.fixedFee || big a.minSwapAmount || big a.maxSwapAmount ||
       big a.supplyLimit.limit || big a.supplyLimit.timeBasedLimit
-  | .service p => p.minDeposit.any (fun c => big c.amount)
+  | .service p => p.minDeposit.any (fun c => big c.amount) || big (some p.minDepositMultiple)
   | .token p => big p.issueTokenBaseFee.amount
 
 def decOutside01 (d : Option Dec) : Bool :=
@@ -113,5 +113,116 @@ def abortClass (stored : AnyParams) : Option String :=
 def batteryFails (stored : AnyParams) (panics : List String) (dflt : String) : List (String × Option String) :=
   (if panics.isEmpty then [] else [("abort-under-validated-params:" ++ ",".intercalate panics, abortClass stored)]) ++
   (if dflt.endsWith "=panic" then [("abort-under-default-params", none)] else [])
+
+/-! ## the monitor as ONE function of (tracked store, operation, observation)
+
+The driver parses an op line into a `MonOp` and an observation line into a `MonObs`, calls
+`stepFails`, and advances its tracked store with `track`; in `model` mode it prints
+`modelObs`.  `Proofs/ParamsMonitor.lean` proves that on the model's own observations
+`stepFails` raises nothing but recorded finding classes. -/
+
+inductive Mod where
+  | coinswap | farm | htlc | service | token
+  deriving DecidableEq, Repr, Inhabited
+
+def modOf : AnyParams → Mod
+  | .coinswap _ => .coinswap
+  | .farm _ => .farm
+  | .htlc _ => .htlc
+  | .service _ => .service
+  | .token _ => .token
+
+def getMod (s : Store) : Mod → AnyParams
+  | .coinswap => .coinswap s.coinswap
+  | .farm => .farm s.farm
+  | .htlc => .htlc s.htlc
+  | .service => .service s.service
+  | .token => .token s.token
+
+def setMod (s : Store) : AnyParams → Store
+  | .coinswap p => { s with coinswap := p }
+  | .farm p => { s with farm := p }
+  | .htlc p => { s with htlc := p }
+  | .service p => { s with service := p }
+  | .token p => { s with token := p }
+
+def allMods : List Mod := [.coinswap, .farm, .htlc, .service, .token]
+
+def verdict : Res Unit → String
+  | .ok _ => "valid"
+  | .error .reject => "invalid"
+  | .error (.panic _) => "panic"
+
+def resWord {α : Type} : Res α → String
+  | .ok _ => "ok"
+  | .error .reject => "rej"
+  | .error (.panic _) => "panic"
+
+def batteryOf : AnyParams → List String
+  | .coinswap p => batteryCoinswap p
+  | .farm p => batteryFarm p
+  | .htlc p => batteryHtlc p
+  | .service p => batteryService p
+  | .token p => batteryToken p
+
+inductive MonOp where
+  | reset
+  | validate (p : AnyParams)
+  | update (sender : String) (p : AnyParams)
+  | genesis (p : AnyParams)
+  | battery (m : Mod)
+  deriving Repr, Inhabited
+
+inductive MonObs where
+  | reset (s : Store)
+  | validate (v : String)
+  | update (cls : String) (post : AnyParams) (sv : String)
+  | genesis (vg ig pv : String) (post : AnyParams)
+  | battery (panics : List String) (dflt : String)
+  deriving Repr, Inhabited
+
+/-- what the model observes for an operation in store `s` -/
+def modelObs (s : Store) : MonOp → MonObs
+  | .reset => .reset {}
+  | .validate p => .validate (verdict (validateAny p))
+  | .update sender p =>
+    let s' := applyOp s ⟨sender, p⟩
+    let q := getMod s' (modOf p)
+    .update (resWord (stepUpdate s sender p)) q (verdict (validateAny q))
+  | .genesis p =>
+    let g := genesisAny p
+    .genesis (resWord g.1) (resWord g.2) (verdict (validateAny p))
+      (match g.2 with | .ok q => q | .error _ => getMod s (modOf p))
+  | .battery m => .battery (batteryOf (getMod s m)) "ok"
+
+/-- the model's next store -/
+def modelNext (s : Store) : MonOp → Store
+  | .reset => {}
+  | .update sender p => applyOp s ⟨sender, p⟩
+  | _ => s
+
+def untagged (cs : List String) : List (String × Option String) := cs.map fun c => (c, none)
+
+/-- every clause the monitor evaluates on one (operation, observation) pair, with the finding
+    class where one applies; `st` = stored sets tracked from the previous observations -/
+def stepFails (st : Store) (op : MonOp) (o : MonObs) : List (String × Option String) :=
+  match op, o with
+  | .reset, .reset s =>
+    if allMods.all fun m => isValid (getMod s m) then [] else [("initial-params-fail-validate", none)]
+  | .validate _, .validate _ => []
+  | .update sender p, .update cls post sv =>
+    if modOf post ≠ modOf p then [("parse", none)]
+    else untagged (updateFails (getMod st (modOf p)) sender p cls post sv)
+  | .genesis p, .genesis _ ig pv post =>
+    if modOf post ≠ modOf p then [("parse", none)] else untagged (genesisFails pv ig post)
+  | .battery m, .battery panics dflt => batteryFails (getMod st m) panics dflt
+  | _, _ => [("parse", none)]
+
+/-- the monitor's tracked store after the observation -/
+def track (st : Store) (op : MonOp) (o : MonObs) : Store :=
+  match op, o with
+  | .reset, .reset s => s
+  | .update _ p, .update _ post _ => if modOf post = modOf p then setMod st post else st
+  | _, _ => st
 
 end Irismod.Spec.C16
